@@ -5,7 +5,7 @@ import threading
 
 from common import CACHE, NIGHTLY, Inconclusive, log, run
 
-_lock = threading.Lock()
+_lock = threading.RLock()
 _sysroot = None
 
 CB_STUB = '''#![feature(compiler_builtins, staged_api)]
@@ -44,6 +44,15 @@ def sysroot():
             if rc != 0:
                 raise Inconclusive("cannot build the compiler_builtins stub for wasm32: " + e[-500:])
             log("[build] wasm32 sysroot ok")
+        if not os.path.exists(os.path.join(lib, "liballoc.rlib")):
+            rc, o, e = run(["rustc", "+" + NIGHTLY, "--print", "sysroot"], timeout=60)
+            src = os.path.join(o.strip(), "lib", "rustlib", "src", "rust", "library")
+            rc, o, e = run(["rustc", "+" + NIGHTLY, "--edition", "2024", "--crate-type", "rlib", "--crate-name", "alloc", "--target", "wasm32-unknown-unknown",
+                            "--sysroot", root, "-C", "opt-level=1", "-C", "panic=abort", "-Z", "force-unstable-if-unmarked", "--cap-lints", "allow",
+                            os.path.join(src, "alloc", "src", "lib.rs"), "--out-dir", lib], timeout=900)
+            if rc != 0:
+                raise Inconclusive("cannot build liballoc for wasm32: " + e[-500:])
+            log("[build] wasm32 liballoc ok")
         _sysroot = root
         return root
 
@@ -52,3 +61,144 @@ def compile_nostd(src, out_base, emit="llvm-ir,link", opt="1", timeout=300):
     """rustc --target wasm32-unknown-unknown for a #![no_std] cdylib. Returns (rc, stderr). Produces <out_base>.wasm / .ll"""
     return run(["rustc", "+" + NIGHTLY, "--edition", "2021", "--crate-type", "cdylib", "--target", "wasm32-unknown-unknown", "--sysroot", sysroot(),
                 "-C", "panic=abort", "-C", "opt-level=" + opt, "--cap-lints", "allow", "--emit=" + emit, src, "-o", out_base + ".wasm"], timeout=timeout)[0::2]
+
+
+# --------------------------------------------------------------------------------------------------------------
+# end-to-end pieces: the working tree's proc macro built with nightly (host), its runtime compiled for wasm32 with
+# only the crate root substituted (the real root pulls in std on wasm32), and a support crate with the allocator,
+# panic handler and the mem* symbols a no_std wasm module needs.
+# --------------------------------------------------------------------------------------------------------------
+
+SUPPORT = r'''#![no_std]
+#![allow(warnings)]
+extern crate alloc;
+use core::alloc::{GlobalAlloc, Layout};
+
+#[link(wasm_import_module = "env")] extern "C" { fn diplomat_console_log_js(ptr: *const u8, len: usize); }
+pub fn log(s: &str) { unsafe { diplomat_console_log_js(s.as_ptr(), s.len()) } }
+
+/// bump allocator with exact bookkeeping of live blocks: the harness asks for the balance at the end of a history
+pub struct Bump;
+static mut NEXT: usize = 0;
+pub static mut LIVE_BLOCKS: isize = 0;
+pub static mut LIVE_BYTES: isize = 0;
+pub static mut TOTAL_ALLOCS: usize = 0;
+unsafe impl GlobalAlloc for Bump {
+    unsafe fn alloc(&self, l: Layout) -> *mut u8 {
+        if NEXT == 0 { NEXT = core::arch::wasm32::memory_size(0) * 65536; }
+        let start = (NEXT + l.align() - 1) & !(l.align() - 1);
+        let end = start + l.size().max(1) + 8;          // 8 guard bytes after every block
+        let have = core::arch::wasm32::memory_size(0) * 65536;
+        if end > have {
+            let pages = (end - have + 65535) / 65536;
+            if core::arch::wasm32::memory_grow(0, pages) == usize::MAX { return core::ptr::null_mut(); }
+        }
+        NEXT = end;
+        let p = start as *mut u8;
+        for i in 0..l.size() { p.add(i).write(0xCD); }
+        for i in 0..8 { p.add(l.size().max(1) + i).write(0xA5); }
+        LIVE_BLOCKS += 1; LIVE_BYTES += l.size() as isize; TOTAL_ALLOCS += 1;
+        p
+    }
+    unsafe fn dealloc(&self, p: *mut u8, l: Layout) {
+        // guard bytes must be intact: something wrote past the end of the block otherwise
+        for i in 0..8 { if p.add(l.size().max(1) + i).read() != 0xA5 { log("GUARD-CORRUPTED"); core::arch::wasm32::unreachable(); } }
+        for i in 0..l.size() { p.add(i).write(0xDD); }
+        LIVE_BLOCKS -= 1; LIVE_BYTES -= l.size() as isize;
+    }
+}
+#[global_allocator] static A: Bump = Bump;
+#[no_mangle] pub extern "C" fn vf_live_blocks() -> i32 { unsafe { LIVE_BLOCKS as i32 } }
+#[no_mangle] pub extern "C" fn vf_total_allocs() -> i32 { unsafe { TOTAL_ALLOCS as i32 } }
+
+#[panic_handler]
+fn panic(i: &core::panic::PanicInfo) -> ! {
+    let m = alloc::format!("PANIC {}", i);
+    log(&m);
+    core::arch::wasm32::unreachable()
+}
+
+#[no_mangle] pub unsafe extern "C" fn memcmp(a: *const u8, b: *const u8, n: usize) -> i32 {
+    let mut i = 0;
+    while i < n { let x = a.add(i).read_volatile(); let y = b.add(i).read_volatile(); if x != y { return x as i32 - y as i32; } i += 1; }
+    0
+}
+#[no_mangle] pub unsafe extern "C" fn bcmp(a: *const u8, b: *const u8, n: usize) -> i32 { memcmp(a, b, n) }
+#[no_mangle] pub unsafe extern "C" fn memcpy(d: *mut u8, s: *const u8, n: usize) -> *mut u8 {
+    let mut i = 0; while i < n { d.add(i).write_volatile(s.add(i).read_volatile()); i += 1; } d
+}
+#[no_mangle] pub unsafe extern "C" fn memmove(d: *mut u8, s: *const u8, n: usize) -> *mut u8 {
+    if (d as usize) <= (s as usize) { let mut i = 0; while i < n { d.add(i).write_volatile(s.add(i).read_volatile()); i += 1; } }
+    else { let mut i = n; while i > 0 { i -= 1; d.add(i).write_volatile(s.add(i).read_volatile()); } }
+    d
+}
+#[no_mangle] pub unsafe extern "C" fn memset(d: *mut u8, c: i32, n: usize) -> *mut u8 {
+    let mut i = 0; while i < n { d.add(i).write_volatile(c as u8); i += 1; } d
+}
+'''
+
+_e2e = None
+
+
+def e2e_artifacts():
+    """-> dict(macro=<libdiplomat.so built by nightly>, runtime=<libdiplomat_runtime.rlib for wasm32>, support=<libvfsupport.rlib>, deps=<host deps dir>, sysroot=...)"""
+    global _e2e
+    if _e2e:
+        return _e2e
+    with _lock:
+        if _e2e:
+            return _e2e
+        import json
+        import re
+        from common import REPO, instantiate_crate, repo_target, cache_dir, repo_key
+        sr = sysroot()
+        d = instantiate_crate("anchor")
+        tgt = repo_target("nightly")
+        rc, out, err = run(["cargo", "+" + NIGHTLY, "build", "--offline", "--message-format=json", "--manifest-path", os.path.join(d, "Cargo.toml"), "--target-dir", tgt], timeout=1800)
+        if rc != 0:
+            raise Inconclusive("the proc macro does not build with nightly:\n" + err[-2000:])
+        macro = None
+        for l in out.splitlines():
+            try:
+                m = json.loads(l)
+            except Exception:
+                continue
+            if m.get("reason") == "compiler-artifact" and m["target"]["name"] == "diplomat":
+                macro = [f for f in m["filenames"] if f.endswith(".so")][0]
+        if not macro:
+            raise Inconclusive("nightly-built proc macro artifact not found")
+        w = cache_dir("wasm32-e2e-" + repo_key())
+        # runtime: the real lib.rs with the crate-level cfg_attr turned into #![no_std], module files taken from the tree by path,
+        # and wasm_glue (std-only: panic hook, logger) replaced by an empty diplomat_init
+        root = open(os.path.join(REPO, "runtime", "src", "lib.rs")).read()
+        root, n1 = re.subn(r"#!\[cfg_attr\(not\(any\(target_arch = \"wasm32\"\)\), no_std\)\]", "#![no_std]", root)
+        root, n2 = re.subn(r"#\[cfg\(target_arch = \"wasm32\"\)\]\s*(//[^\n]*\n)*\s*mod wasm_glue;", "#[no_mangle] unsafe extern \"C\" fn diplomat_init() {}", root)
+        root, n3 = re.subn(r"^mod (\w+);", lambda m: "#[path = \"%s/runtime/src/%s.rs\"] mod %s;" % (REPO, m.group(1), m.group(1)), root, flags=re.M)
+        if n1 != 1 or n2 != 1 or n3 < 4:
+            raise Inconclusive("runtime/src/lib.rs no longer has the shape the wasm32 root substitution expects (%d, %d, %d)" % (n1, n2, n3))
+        rp = os.path.join(w, "diplomat_runtime_root.rs")
+        open(rp, "w").write(root)
+        common_flags = ["--edition", "2021", "--target", "wasm32-unknown-unknown", "--sysroot", sr, "-C", "panic=abort", "-C", "opt-level=1",
+                        "-C", "debug-assertions=on", "-C", "overflow-checks=on", "--cap-lints", "allow"]
+        rc, o, e = run(["rustc", "+" + NIGHTLY, "--crate-type", "rlib", "--crate-name", "diplomat_runtime"] + common_flags + [rp, "--out-dir", w], timeout=600)
+        if rc != 0:
+            raise Inconclusive("the runtime does not build for wasm32 (no_std root): " + e[-1500:])
+        sp = os.path.join(w, "vfsupport.rs")
+        open(sp, "w").write(SUPPORT)
+        rc, o, e = run(["rustc", "+" + NIGHTLY, "--crate-type", "rlib", "--crate-name", "vfsupport"] + common_flags + [sp, "--out-dir", w], timeout=600)
+        if rc != 0:
+            raise Inconclusive("the wasm32 support crate does not build: " + e[-1500:])
+        _e2e = {"macro": macro, "runtime": os.path.join(w, "libdiplomat_runtime.rlib"), "support": os.path.join(w, "libvfsupport.rlib"),
+                "deps": os.path.join(tgt, "debug", "deps"), "sysroot": sr, "flags": common_flags, "dir": w}
+        log("[build] wasm32 e2e artifacts ok")
+        return _e2e
+
+
+def compile_bridge(src, out_wasm, timeout=300):
+    """generated #![no_std] bridge crate -> .wasm through the real proc macro and the real runtime. -> (rc, stderr)"""
+    a = e2e_artifacts()
+    cmd = ["rustc", "+" + NIGHTLY, "--crate-type", "cdylib", "--crate-name", "vfprog"] + a["flags"] + [
+        src, "--extern", "diplomat=" + a["macro"], "--extern", "diplomat_runtime=" + a["runtime"], "--extern", "vfsupport=" + a["support"],
+        "-L", "dependency=" + a["deps"], "-L", a["dir"], "-o", out_wasm]
+    rc, o, e = run(cmd, timeout=timeout)
+    return rc, e
